@@ -340,6 +340,61 @@ def r_mut_from_mut(F, V):
     return R
 
 
+# --------------------------------------------------------------- R-REBORROW
+
+def r_reborrow(F, V):
+    """A handle type X<'a, ..> that carries mutable/owning access to the collection for 'a (entries, IterMut,
+    Drain, ..) may be *re-borrowed* through `&self` / `&mut self` only for the receiver's own (shorter) borrow:
+    an output that mentions the carrier lifetime 'a while the handle itself stays usable gives a reference that
+    outlives the re-borrow - it coexists with the handle's later insert/remove/next (dangling or aliased)."""
+    R = Result("R-REBORROW", F.cfg)
+    mutset = mut_class_types(F)
+    n = 0
+    for p, f in public_sigs(F):
+        if not f["inputs"]:
+            continue
+        recv = f["inputs"][0]
+        if recv.get("k") != "ref":
+            continue
+        head = recv["inner"]
+        if head.get("k") != "adt" or head["path"] not in mutset:
+            continue
+        imp = f.get("impl") or {}
+        st = imp.get("self_ty") or {}
+        if st.get("k") != "adt" or st.get("path") != head["path"]:
+            continue
+        idx = carrier_lifetimes(F, head["path"])
+        carr = set(norm_region(r) for i, r in enumerate(head.get("regions", [])) if i in idx)
+        carr.discard("'static")
+        if not carr:
+            continue
+        if imp.get("trait") in ITERATOR_TRAITS:
+            R.inst(p, "cursor-advancing trait method (%s): each call hands out a different element, exactly-once delivery is R-ITEMS-GUARD / R-PAR-LINEAR" % imp["trait"].split("::")[-1], "exempt", False)
+            continue
+        n += 1
+        hits = []
+
+        def visit(nd, under):
+            if nd.get("k") == "ref" and norm_region(nd["region"]) in carr:
+                hits.append(nd["s"])
+            elif nd.get("k") == "adt" and nd["path"] in F.adts:
+                for r in nd.get("regions", []):
+                    if norm_region(r) in carr:
+                        hits.append(nd["s"])
+        walk(f["output"], visit)
+        anchor = FakeBody(p, f["sp"])
+        if hits:
+            R.violation("%s|%s" % (p, hits[0].split("<")[0]), anchor,
+                        "`%s` takes the handle by reference (`%s`) but returns `%s`, which carries the handle's own collection lifetime %s: the result outlives the re-borrow and "
+                        "coexists with the handle's later mutations (insert/remove/next), i.e. a dangling or aliased reference from safe code"
+                        % (p, recv["s"], hits[0], sorted(carr)[0]), output=f["output"]["s"], receiver=recv["s"])
+            R.inst(p, "output carries the carrier lifetime of a by-reference receiver", "violation", True)
+        else:
+            R.inst(p, "output of by-reference method on %s does not mention its carrier lifetime %s" % (head["path"], sorted(carr)), "ok", True)
+    R.floor("by-reference methods on mutable-access handles", n, 40)
+    return R
+
+
 # --------------------------------------------------------------- R-VARIANCE
 
 def r_variance(F, V):
